@@ -6,8 +6,8 @@ import sys
 import time
 
 VERIF = os.path.dirname(os.path.dirname(os.path.abspath(__file__)))
-EVID = os.path.join(VERIF, "evidence")
-REPLAY = os.path.join(VERIF, "out", "replay")
+EVID = os.environ.get("VERIF_EVIDENCE_DIR", os.path.join(VERIF, "evidence"))
+REPLAY = os.environ.get("VERIF_REPLAY_DIR", os.path.join(VERIF, "out", "replay"))
 KNOWN = os.path.join(VERIF, "known_findings.json")
 
 
